@@ -66,6 +66,9 @@ THEOREMS = [
     "Cotengra.C15.prefix_discipline_new_reader",
     "Cotengra.C15.run_writeAtomic_self",
     "Cotengra.C15.queryNew_refines_maybeRun",
+    "Cotengra.C15.writeAtomic_layoutOK",
+    "Cotengra.C15.auto_layout_stable",
+    "Cotengra.C15.root_tmp_counterexample",
     "Cotengra.C15.toy_prefix",
 ]
 TRUSTED = [
@@ -243,13 +246,16 @@ class CaseRun:
         op = {"q": self.case["q"], "ans": self.case["answers"]["new"]}
         return U.run_child(mode, "write", self.wcfg, [op], crash)
 
-    def readers(self, mode="fork"):
+    def readers(self, mode="fork", default_args=False):
+        """two later fresh processes; with `default_args` they are opened the way a user who only
+        knows the directory would: `directory_split` not passed at all ("auto")"""
         a = self.case["answers"]
-        r1 = U.run_child(mode, "session", self.cfg, [{"q": self.case["q"], "ans": a["w1"]}])
+        cfg = dict(self.cfg, split="default") if default_args else self.cfg
+        r1 = U.run_child(mode, "session", cfg, [{"q": self.case["q"], "ans": a["w1"]}])
         ops2 = [{"q": self.case["q"], "ans": a["w2"]}]
         if self.case["scenario"] != "fresh-dir":
             ops2 += [{"q": o["q"], "ans": o["w"]} for o in self.case["others"]]
-        r2 = U.run_child(mode, "session", self.cfg, ops2)
+        r2 = U.run_child(mode, "session", cfg, ops2)
         return r1, r2
 
     # -- reading the directory -------------------------------------------------------------
@@ -340,6 +346,10 @@ def oracle(cr, ids, r1, r2, have_old):
                 not tree_matches_entry(o):
             return ("wrong-tree", {"who": name, "tree": t, "stored": o["stored"]})
     got1 = ident_obs(ids, q, o1)
+    if have_old and o1["searches"] != 0:
+        # the key held a complete entry before the crash: "entries stored before the crash remain
+        # readable" -- the later process must find the complete old or the complete new entry
+        return ("lost-entry", {"who": "overwritten-key", "searches": o1["searches"]})
     if o1["searches"] == 0:
         if got1 not in (id_old, id_new):
             return ("hit-unknown-entry", {"struct": o1["struct"], "sliced": o1["tree"]["sliced"],
@@ -367,7 +377,7 @@ def outcome_view(ids, q, o):
 
 def crash_points(cr, n_bytes, n_bound, n_prof, tier, rng):
     pts = [{"kind": "after-last-call"}]
-    cap = 300 if tier == "quick" else 600
+    cap = 240 if tier == "quick" else 600
     ns = list(range(n_prof))
     if n_prof > cap:  # (a writer with very many Python-level events: keep the budget bounded)
         ns = sorted(set(rng.sample(ns, cap - 40) + ns[:20] + ns[-20:]))
@@ -381,6 +391,9 @@ def crash_points(cr, n_bytes, n_bound, n_prof, tier, rng):
     nfresh = 3 if tier == "quick" else 10
     for k in sorted(rng.sample(ks, min(nfresh, len(ks)))):
         pts.append({"kind": "bytes", "k": k, "mode": "fresh"})
+    for i, p in enumerate(pts):     # every other crash point: later processes with default arguments
+        if i % 2:
+            p["default_readers"] = True
     return pts
 
 
@@ -393,7 +406,8 @@ def run_point(cr, ids, crash, have_old):
                  {k: v for k, v in crash.items() if k != "mode"}, mode)
     died = w[0] == "died"
     snap = U.snapshot(cr.dir)
-    r1, r2 = cr.readers(mode)
+    # (the default layout is the split one: only there do default arguments mean the same cache)
+    r1, r2 = cr.readers(mode, default_args=bool(crash.get("default_readers")) and cr.case["split"])
     verdict = oracle(cr, ids, r1, r2, have_old)
     if verdict is None and w[0] == "exc":
         verdict = ("writer-raises", {"exc": w[1], "msg": w[2]})
@@ -469,14 +483,21 @@ def run_case(ctx, drv, case, base, budget_pts=None):
             ctx.corr_broken("writer performs a system call the model does not have",
                             {"events": [e["op"] for e in events]})
         else:
-            adm = drv.call("c15.admissible", fs=fsj, f=cr.keypath(cr.key), data=data, ops=ops)
+            adm = drv.call("c15.admissible", fs=fsj, f=cr.keypath(cr.key), data=data, ops=ops,
+                           split=bool(case["split"]))
             disc = "atomic" if adm.get("admissible") else ("prefix" if adm.get("admissible_prefix") else "none")
             ctx.count("trace_discipline:" + disc)
-            if disc == "none" or not adm.get("is_key_path") or adm.get("final_file") != data:
-                # (a writer under the weaker `prefix` discipline is fine as long as the reader is
-                # the tolerant one -- which (E2) below checks on every real post-crash directory)
-                ctx.corr_broken("observed system-call trace of DiskDict.__setitem__ is rejected by both verified "
-                                "checkers (`admissible`, `admissibleP`)",
+            ctx.count("trace_layout_ok:%s" % adm.get("layout_ok"))
+            if disc != "atomic" or not adm.get("is_key_path") or adm.get("final_file") != data:
+                # (`prefix` = an in-place writer: survivable with the tolerant reader, but a kill can
+                # lose the complete entry that was there before -- not enough for this property)
+                ctx.corr_broken("observed system-call trace of DiskDict.__setitem__ is rejected by the verified "
+                                "checker `admissible` (discipline: %s)" % disc,
+                                {"ops": [(o["op"], o.get("p") or [o.get("s"), o.get("d")]) for o in ops]})
+            if not adm.get("layout_ok"):
+                ctx.corr_broken("the writer puts a regular file directly below a split cache directory (or a "
+                                "sub-directory into a flat one): `directory_split='auto'` of a later process "
+                                "may then pick the wrong layout (checker `layoutOK`)",
                                 {"ops": [(o["op"], o.get("p") or [o.get("s"), o.get("d")]) for o in ops]})
             st = drv.call("c15.crash", fs=fsj, split=case["split"], key=cr.key, data=data, protocol="atomic",
                           ops=ops, table=table, probes=probes)
@@ -506,6 +527,8 @@ def run_case(ctx, drv, case, base, budget_pts=None):
         died, snap, r1, r2, verdict = run_point(cr, ids, crash, have_old)
         tag = crash["kind"] + (":fresh" if crash.get("mode") == "fresh" else "")
         ctx.count("crash:" + tag)
+        ctx.count("readers:" + ("default-arguments" if crash.get("default_readers") and case["split"]
+                                else "explicit-layout"))
         ctx.count("writer_died:%s" % died)
         ctx.case({"q": q["inputs"], "scenario": case["scenario"], "split": case["split"], "cls": case["cls"],
                   "crash": crash}, nontrivial=died)
